@@ -112,7 +112,7 @@ const SEL: &[&str] = &[".a", ".md\\:x", " ", ".b", ">", ",", ":not(", ":is(", ")
 /// (no comment piece here: a comment between two identifiers, `a/*c*/a`, is re-printed with a space as separator, which
 /// reads as a descendant combinator -- but that input is not a well-formed selector, outside C08's quantifier)
 const SEL2: &[&str] = &[".", "a", "b", " ", ",", ">", ":", "*", ":is(", ":not(", ")", "[", "]", "=", "#i"];
-const VAL: &[&str] = &["calc(", "min(", "CALC(", "Clamp(", "1px", " + ", " - ", "2rpx", "(", ")", "*3", "var(--x,", " ", ",", "/*c*/", "red", ";", "!important", "#fff", ";height:", "+5", "-0", "+5px", "0rpx"];
+const VAL: &[&str] = &["calc(", "min(", "CALC(", "Clamp(", "1px", " + ", " - ", "2rpx", "(", ")", "*3", "var(--x,", " ", ",", "/*c*/", "red", ";", "!important", "#fff", ";height:", "+5", "-0", "+5px", "0rpx", "calc(1px /*c*/+ ", "max(1px,2rpx /**/- "];
 const WRAP: &[(&str, &str)] = &[("", ""), ("@media (min-width:1rpx){", "}"), ("@MEDIA (min-width:1px){", "}"), ("@layer x{", "}"), ("@supports selector(.c .d){", "}"), ("@container n (min-width: calc(1px + 2rpx)){", "}"), ("@starting-style{", "}"), ("@scope (.c) to (.d){", "}"), ("@STARTING-STYLE{", "}"), ("@document url(x){", "}")];
 /// at-rules whose block holds declarations (or keyframe / margin-box blocks of declarations), never selectors
 const DECL_WRAP: &[(&str, &str)] = &[("@page{width:", "}"), ("@page :first{margin:0 ", "}"), ("@font-face{width:", "}"), ("@keyframes k{from{width:", "}}"), ("@page{@top-left{width:", "}}"), ("@property --x{initial-value:", "}"), ("@counter-style c{pad:", "}")];
